@@ -303,8 +303,15 @@ def proximal_arg_scaling(prox_factory, scaling):
         scaling_square = scaling * scaling
         prox = prox_factory(sigma * scaling_square)
         space = prox.domain
-        mult_inner = MultiplyOperator(scaling, domain=space, range=space)
-        mult_outer = MultiplyOperator(1 / scaling, domain=space, range=space)
+        scal = scaling
+        if isinstance(scal, np.ndarray):
+            # Sequences of floats get the data type of the space, such that
+            # the multiplications stay in the space (also with ``out``)
+            dtype = getattr(space, 'dtype', None)
+            if dtype is not None:
+                scal = scal.astype(dtype, copy=False)
+        mult_inner = MultiplyOperator(scal, domain=space, range=space)
+        mult_outer = MultiplyOperator(1 / scal, domain=space, range=space)
         return mult_outer * prox * mult_inner
 
     return arg_scaling_prox_factory
